@@ -24,6 +24,7 @@ Status on the current tree:
 -/
 import NetqasmVerif.Lemmas.BellLoopSpec
 import NetqasmVerif.Lemmas.BellAlloc
+import NetqasmVerif.Lemmas.BellContext
 import NetqasmVerif.Props.BellObligations
 namespace NQ.C10
 open NQ NQ.Bell NQ.BellObl
@@ -371,5 +372,116 @@ theorem emitted_block_addressing (d : Data) (c : Config) (mv : Bool) (code : Lis
 example : (emitWaitAll Gen.data ⟨"keep", false, false, 3, true, [0, 2], ["LOOP", "IF_EXIT"], 2, 3, 1, 0⟩).isSome = true
     ∧ (emitSeq Gen.data ⟨"keep", false, true, 3, true, [0, 2], ["LOOP", "IF_EXIT"], 2, 3, 1, 0⟩ false).isSome = true
     ∧ (emitSeq Gen.data ⟨"keep", true, false, 3, true, [], [], 0, 1, 1, 0⟩ true).isSome = true := by decide
+
+/-! ## (f) the correction block in its real surroundings, with an arbitrary post routine -/
+
+theorem allocSeq_labels {act : List Nat} {used : List String} {a : SeqAlloc} {u4 : List String}
+    (h : allocSeq act used = some (a, u4)) : a.a1 ∈ u4 ∧ a.a2 ∈ u4 ∧ a.b1 ∈ u4 ∧ a.b2 ∈ u4 := by
+  simp only [allocSeq, Option.bind_eq_some_iff] at h
+  obtain ⟨L, _, q, _, b, _, s, _, t, _, e, _, J, _, p1, h1, p2, h2, p3, h3, p4, h4, he⟩ := h
+  simp only [Option.some.injEq, Prod.mk.injEq] at he
+  obtain ⟨rfl, rfl⟩ := he
+  rw [(newLabel_fresh h4).2, (newLabel_fresh h3).2, (newLabel_fresh h2).2, (newLabel_fresh h1).2]
+  simp
+
+theorem seqTail_labels {c : Config} {mv : Bool} {a : SeqAlloc} {u9 u10 : List String} {t : List Cmd}
+    (h : seqTail c mv a u9 = some (t, u10)) : ∀ l ∈ u9, l ∈ u10 := by
+  unfold seqTail at h
+  cases mv with
+  | false =>
+    simp only [Bool.not_false, if_true, Option.some.injEq, Prod.mk.injEq] at h
+    obtain ⟨_, rfl⟩ := h
+    exact fun l hl => hl
+  | true =>
+    simp only [Bool.not_true, Bool.false_eq_true, if_false] at h
+    cases h1 : getInactive (a.b :: a.q :: a.L :: c.act) with
+    | none => simp [h1] at h
+    | some r0 =>
+      cases h2 : getInactive (r0 :: a.b :: a.q :: a.L :: c.act) with
+      | none => simp [h1, h2] at h
+      | some r1 =>
+        cases h3 : newLabel u9 "IF_EXIT" with
+        | none => simp [h1, h2, h3] at h
+        | some p =>
+          simp only [h1, h2, h3, Option.some.injEq, Prod.mk.injEq] at h
+          obtain ⟨_, rfl⟩ := h
+          intro l hl
+          rw [(newLabel_fresh h3).2]; simp [hl]
+
+/-- **The correction block inside the emitted per-pair loop, followed by ANY post routine.**
+For every configuration with corrections expected, the model emission is `pre ++ blk ++ tail`
+(`pre` = receive command, loop head and the wait-for-pair code; `tail` = move code and loop tail).
+Insert an ARBITRARY command list `post` — the user's post routine — behind the block. In the program
+`pre ++ blk ++ post ++ tail`, whenever control reaches the block with the pair register holding `i`
+(`L = i`), the block applies exactly the rotations of pair i's Bell value to `t.pick (ids[i])` and to
+no other qubit, arrives at the first command of `post`, and has preserved `L` and every register
+other than its four scratch registers. No hypothesis on `post` is needed for this: label lookup takes
+the first definition, and `pre` defines none of the block's labels (proved from the allocation).
+What a post routine must respect for the *next* iteration to meet the precondition again is only
+`L` (and the loop's own labels) — the bookkeeping registers `q, b, I, J` are re-initialised by the
+block itself in every iteration. -/
+theorem emitted_block_in_loop (d : Data) (c : Config) (mv : Bool) (code : List Cmd)
+    (he : c.expect = true) (h : emitSeq d c mv = some code) :
+    ∃ (L q b I J : Nat) (pre blk tail : List Cmd), code = pre ++ (blk ++ tail) ∧ blk.length = 20 ∧
+      ∀ (post : List Cmd) (mem : Mem) (idv resv : List Int), mem c.ids = some idv → mem c.res = some resv →
+      ∀ (i : Nat) (id bv : Int) (k : Nat), idv[i]? = some id →
+        d.ly.idxBell + d.ly.len * (i : Int) = (k : Int) → resv[k]? = some bv →
+      ∀ (regs : Nat → Int) (tr : List Ev), regs L = (i : Int) →
+        ∃ regs', Reaches (pre ++ (blk ++ (post ++ tail))) mem ⟨pre.length, regs, tr⟩
+            ⟨pre.length + 20, regs', tr ++ corrEvents d.sp bv ((if mv then d.tMove else d.tPost).pick id)⟩ ∧
+          regs' L = (i : Int) ∧ (∀ x, x ≠ I → x ≠ J → x ≠ b → x ≠ q → regs' x = regs x) := by
+  unfold emitSeq at h
+  cases h0 : allocSeq c.act c.labels with
+  | none => simp [h0] at h
+  | some p0 =>
+    obtain ⟨a, u4⟩ := p0
+    cases h1 : seqCorr d c mv a u4 with
+    | none => simp [h0, h1] at h
+    | some p1 =>
+      obtain ⟨corrCmds, u9⟩ := p1
+      cases h2 : seqTail c mv a u9 with
+      | none => simp [h0, h1, h2] at h
+      | some p2 =>
+        obtain ⟨tailCmds, u10⟩ := p2
+        cases h3 : newLabel u10 "LOOP" with
+        | none => simp [h0, h1, h2, h3] at h
+        | some p3 =>
+          cases h4 : newLabel p3.2 "LOOP_EXIT" with
+          | none => simp [h0, h1, h2, h3, h4] at h
+          | some p4 =>
+            simp only [h0, h1, h2, h3, h4, Option.some.injEq] at h
+            obtain ⟨I, J, l1, l2, x1, x2, x3, hd, hl, hb⟩ := seqCorr_shape h0 rfl he h1
+            subst hb
+            obtain ⟨hnew, hin9, _⟩ := seqCorr_labels he h1
+            obtain ⟨ha1, ha2, hb1, hb2⟩ := allocSeq_labels h0
+            have h910 := seqTail_labels h2
+            have hl3 : p3.1 ∉ u10 := (newLabel_fresh h3).1
+            refine ⟨a.L, a.q, a.b, I, J,
+              [ .recvEpr c.remote c.sock (some c.ids) c.res, .set a.L 0, .label p3.1,
+                  .beq (.r a.L) (.imm c.n) p4.1 ] ++
+                waitBlockCode d.ly a.L a.s a.t a.e a.J a.a1 a.a2 a.b1 a.b2 c.res,
+              corrBlockCode (if mv then d.tMove else d.tPost) d.ly d.sp a.q a.b a.L I J l1 l2 x1 x2 x3
+                c.ids c.res,
+              tailCmds ++ [ .add a.L a.L (.imm 1), .jmp p3.1, .label p4.1 ], ?_, ?_, ?_⟩
+            · rw [← h]; simp only [List.append_assoc]
+            · generalize (if mv = true then d.tMove else d.tPost) = t
+              cases t <;> rfl
+            · intro post mem idv resv hmi hmr i id bv k hid hk hbv regs tr hL
+              have hpre : ∀ l ∈ [l1, l2, x1, x2, x3], Cmd.label l ∉
+                  ([ Cmd.recvEpr c.remote c.sock (some c.ids) c.res, .set a.L 0, .label p3.1,
+                      .beq (.r a.L) (.imm c.n) p4.1 ] ++
+                    waitBlockCode d.ly a.L a.s a.t a.e a.J a.a1 a.a2 a.b1 a.b2 c.res) := by
+                intro l hlm hmem
+                have hl9 := hin9 l hlm
+                have hl4 := hnew l hlm
+                simp [waitBlockCode] at hmem
+                rcases hmem with e | e | e | e | e
+                · exact hl3 (by rw [← e]; exact h910 l hl9)
+                · exact hl4 (by rw [e]; exact ha1)
+                · exact hl4 (by rw [e]; exact ha2)
+                · exact hl4 (by rw [e]; exact hb1)
+                · exact hl4 (by rw [e]; exact hb2)
+              exact block_in_context _ (post ++ (tailCmds ++ [ .add a.L a.L (.imm 1), .jmp p3.1, .label p4.1 ]))
+                hpre hd hl idv resv hmi hmr i id bv k hid hk hbv regs tr hL
 
 end NQ.C10
